@@ -133,7 +133,7 @@ fn analyse(dir: &Path) -> Result<(Summary, Vec<(String, Vec<TypeStructure>)>), S
     Ok(((names, structs, deps, events), trees))
 }
 
-fn strip_ts(s: &str) -> String { s.lines().filter(|l| !l.contains("Generated at:")).collect::<Vec<_>>().join("\n") }
+fn strip_ts(s: &str) -> String { s.lines().filter(|l| !has_timestamp(l)).collect::<Vec<_>>().join("\n") }
 
 fn snapshot(dir: &Path) -> BTreeMap<String, String> {
     let mut m = BTreeMap::new();
@@ -360,7 +360,7 @@ fn main() {
             ("lost_generated_file_is_written_again", "delete types.ts", "", ""),
             ("lost_generated_file_is_written_again", "delete events.ts", "", ""),
         ];
-        let strip = |m: BTreeMap<String, String>| -> BTreeMap<String, String> { m.into_iter().filter(|(k, _)| k != ".typecache").map(|(k, v)| (k, v.lines().filter(|l| !l.contains("Generated at:")).collect::<Vec<_>>().join("\n"))).collect() };
+        let strip = |m: BTreeMap<String, String>| -> BTreeMap<String, String> { m.into_iter().filter(|(k, _)| k != ".typecache").map(|(k, v)| (k, v.lines().filter(|l| !has_timestamp(l)).collect::<Vec<_>>().join("\n"))).collect() };
         let run_in = |proj: &std::path::Path| -> Result<(), String> {
             let cwd = std::env::current_dir().map_err(|e| e.to_string())?;
             std::env::set_current_dir(proj).map_err(|e| e.to_string())?;
